@@ -860,7 +860,19 @@ def gen_life(r, n, tier):
 
 
 def gen_net(r, n, tier):
+    """net <tcp|tls|tlsa>[6] m<max sessions> <filter> <script>: the production server tasks on loopback.
+    Steps: c<k>.<src> connect, q<k> request/reply, P<k>.<n> n pipelined requests (125 registers each)
+    written before any reply is read, g<k> garbage, x<k> close, B<k1>/<k2>/.. close all at the same
+    instant, W<n>.<src> n peers that connect and leave at once, p<k> probe, L / S / H set decode level /
+    shutdown / drop the handle."""
     v4 = ["127.0.0.1", "127.0.0.2", "127.1.2.3", "127.0.0.9"]
+    lo = "127.0.0.1"
+
+    def conns(a, b):
+        return [f"c{k}.{lo}" for k in range(a, b + 1)]
+
+    def probes(a, b):
+        return [f"p{k}" for k in range(a, b + 1)]
     # C16: every variant x matching / non-matching filters x peers
     filters = ["any", "x127.0.0.1", "x127.0.0.2", "s127.0.0.1/127.1.2.3", "s",
                "w" + hx(b"127.*.*.*"), "w" + hx(b"127.0.0.*"), "w" + hx(b"*.*.*.1"), "w" + hx(b"127.1.*.3"),
@@ -891,6 +903,58 @@ def gen_net(r, n, tier):
                 steps += [f"c{m + 1}.127.0.0.1"] + [f"p{k}" for k in range(1, m + 2)]
                 steps += [f"c{m + 2}.127.0.0.1"] + [f"p{k}" for k in range(1, m + 3)] + [f"q{m + 2}"]
                 yield f"net tcp m{m} any {','.join(steps)}"
+    # C01 over a real socket: a peer that pipelines requests and reads the replies late. 20000
+    # replies of 259 bytes (5 MB) overrun the server's send buffer (tcp_wmem max 4 MB) and the
+    # peer's receive window, so that the server's writes meet a full socket; every reply must
+    # still arrive whole and in order (0.3 s).
+    yield f"net tcp m2 any c1.{lo},P1.20000,q1"
+    yield f"net tcp m2 any c1.{lo},c2.{lo},P2.300,P1.20000,q2,q1,c3.{lo},P1.5,P2.40,P3.1,q3"
+    yield f"net tcp m1 x127.0.0.2 c1.{lo},P1.3,c2.127.0.0.2,P2.3,P7.1,S,P2.3"
+    if tier == "thorough":
+        yield f"net tcp m2 any c1.{lo},P1.40000,P1.20000,q1"
+        yield f"net tcp6 m2 any c1.::1,P1.20000,q1"
+        for cnt in (1, 2, 63, 64, 65, 253, 1000, 5000, 12000, 16000, 17000, 65535):
+            yield f"net tcp m2 any c1.{lo},P1.{cnt},q1"
+    # C15: a handshake that is still pending (nobody speaks TLS here) must keep listening to
+    # eviction / shutdown / handle drop after decode-level changes
+    for variant in ("tls", "tlsa"):
+        yield f"net {variant} m2 any c1.{lo},c2.{lo},L,c3.{lo},p1,p2,p3,L,L,c4.{lo},p2,p3,p4,S,p3,p4"
+        yield f"net {variant} m1 any c1.{lo},L,p1,H,p1"
+        yield f"net {variant} m3 any c1.{lo},L,c2.{lo},L,g1,c3.{lo},c4.{lo},p2,c5.{lo},p2,p3,S,p3,p4,p5"
+    # C15: a burst of sessions ending at the same instant (more than the 8 slots of the
+    # close-notification channel): every one of them must free its slot — the survivor (the
+    # oldest session) stays when exactly as many peers connect again, and goes with the next one
+    def burst(variant, m, keep):
+        steps = conns(1, m) + ["B" + "/".join(str(k) for k in range(keep + 1, m + 1))]
+        steps += conns(m + 1, 2 * m - keep) + probes(1, keep) + conns(2 * m - keep + 1, 2 * m - keep + 1)
+        return f"net {variant} m{m} any {','.join(steps + probes(1, keep))}"
+    yield burst("tcp", 12, 1)
+    yield burst("tls", 10, 1)
+    if tier == "thorough":
+        for m, keep in ((9, 1), (10, 1), (11, 2), (16, 1), (16, 3), (20, 2)):
+            yield burst("tcp", m, keep)
+        yield burst("tlsa", 12, 1)
+    # C15: churn — peers that come and go must leave nothing behind, however many of them
+    # (session ids are never re-used: 65532 peers, then 9 more on a server for 8: the oldest of
+    # these goes, not the one whose id would be smallest after a 16-bit wrap; 3.7 s)
+    yield f"net tcp m6 any c1.{lo},c2.{lo},W300.{lo},p1,p2,q1," + ",".join(conns(3, 6) + ["p1", f"c7.{lo}", "p1", "p2", "q2"])
+    yield f"net tls m6 x127.0.0.1 c1.{lo},W40.127.0.0.2,W40.{lo},p1," + ",".join(conns(2, 6) + ["p1", f"c7.{lo}", "p1", "p2"])
+    yield f"net tcp m8 any W65532.{lo}," + ",".join(conns(1, 9) + probes(1, 9))
+    if tier == "thorough":
+        yield f"net tcp m8 any c1.{lo},W65535.{lo}," + ",".join(conns(2, 8) + ["p1", f"c9.{lo}"] + probes(1, 9))
+        yield f"net tls m8 any W65530.{lo}," + ",".join(conns(1, 9) + probes(1, 9))
+    # a request cut in two segments with a decode-level change (and traffic of another session) in
+    # between: commands never disturb a transaction (C15 isolation, C20)
+    yield "net tcp m3 any c1.127.0.0.1,c2.127.0.0.1,h1,L,t1,q2,h2,L,q1,t2,p1,p2"
+    yield "net tcp m2 any c1.127.0.0.1,h1,L,L,t1,q1"
+    # a failed TLS handshake (garbage instead of a ClientHello) must free its slot like any other end
+    for variant in ("tls", "tlsa"):
+        for m in (2, 3):
+            for victim in range(2, m + 1):
+                steps = [f"c{k}.127.0.0.1" for k in range(1, m + 1)] + [f"g{victim}"]
+                steps += [f"c{m + 1}.127.0.0.1"] + [f"p{k}" for k in range(1, m + 2)]
+                steps += [f"c{m + 2}.127.0.0.1"] + [f"p{k}" for k in range(1, m + 3)]
+                yield f"net {variant} m{m} any {','.join(steps)}"
     for _ in range(n):
         variant = r.pick(["tcp", "tcp", "tcp", "tls", "tlsa"])
         m = r.pick([0, 1, 2, 3, 4])
@@ -903,13 +967,21 @@ def gen_net(r, n, tier):
                 nc += 1
                 steps.append(f"c{nc}.{r.pick(v4)}")
             elif k < 6 and variant == "tcp":
-                steps.append(f"q{r.rng(1, nc)}")
+                if r.chance(1, 4):
+                    steps.append(f"P{r.rng(1, nc)}.{r.pick([1, 2, 7, 64, 300])}")
+                else:
+                    steps.append(f"q{r.rng(1, nc)}")
             elif k < 7:
                 steps.append(f"p{r.rng(1, nc)}")
             elif k < 8:
                 steps.append(f"g{r.rng(1, nc)}")
             elif k < 9:
-                steps.append(f"x{r.rng(1, nc)}")
+                if nc >= 2 and r.chance(1, 4):
+                    a = r.rng(1, nc)
+                    b = r.rng(1, nc)
+                    steps.append(f"B{a}/{b}" if a != b else f"B{a}")
+                else:
+                    steps.append(f"x{r.rng(1, nc)}")
             else:
                 steps.append(r.pick(["L", "L", "S", "H"]))
         steps += [f"p{j}" for j in range(1, nc + 1)]
@@ -917,7 +989,10 @@ def gen_net(r, n, tier):
 
 
 def gen_tls(r, n, tier):
-    """the C09 grid; quick = a reduced grid, thorough = the full grid"""
+    """the C09 grid; quick = a reduced grid, thorough = the full grid
+    tls srv <min> <ca|ss> <authz> <peer versions> <peer cert[+extra]|none> [<expected ss cert>]
+    tls srvseq … <peer>,<peer>,… [<expected ss cert>]: successive peers on one server, results joined by ' ; '
+    tls cli <min> <ca|ss|cad|ssd> <peer versions> <server cert> <server name|-> [<expected ss cert>]"""
     srv_ca = ["cli_operator", "cli_viewer", "cli_norole", "cli_wrongca", "cli_expired", "cli_future", "none",
               # a second certificate after the end entity: the role is that of the end entity
               "cli_operator+cli_viewer", "cli_viewer+cli_operator", "cli_norole+cli_operator", "cli_operator+ss_a"]
@@ -947,10 +1022,29 @@ def gen_tls(r, n, tier):
                 cases.append(f"tls cli {mn} cad {vers} {c} {name}")
             for c, e in (("ss_b", "ss_b"), ("ss_impostor", "ss_b")):
                 cases.append(f"tls cli {mn} ssd {vers} {c} - {e}")
+    # several peers, one after the other, on ONE server instance: every admission is decided on the
+    # certificate of the connection at hand (the role of an earlier peer must not stick, a role-less
+    # peer must not slip in behind an authorized one)
+    seqs = ["cli_operator,cli_viewer", "cli_operator,cli_norole", "cli_norole,cli_operator",
+            "cli_viewer,cli_operator,cli_viewer", "cli_viewer,cli_norole,cli_operator"]
+    seq_cases = [f"tls srvseq 12 ca 1 both {q}" for q in seqs]
+    seq_cases.append("tls srvseq 12 ca 0 both cli_operator,cli_norole,cli_viewer")
+    seq_cases.append("tls srvseq 12 ss 1 both ss_a,ss_b,ss_a ss_a")
     if tier == "thorough":
         for c in cases:
             yield c
+        for c in seq_cases:
+            yield c
+        for mn, vers in (("12", "12"), ("13", "13"), ("13", "both")):
+            for q in seqs + ["cli_operator,cli_wrongca,cli_viewer", "cli_expired,cli_viewer,none,cli_operator",
+                             "cli_operator+cli_viewer,cli_viewer+cli_operator,cli_norole+cli_operator"]:
+                yield f"tls srvseq {mn} ca 1 {vers} {q}"
+        yield "tls srvseq 13 ca 1 12 cli_operator,cli_viewer"
+        yield "tls srvseq 12 ss 1 both ss_norole,ss_a,ss_norole ss_norole"
+        yield "tls srvseq 12 ss 0 13 ss_b,ss_impostor,ss_b ss_b"
         return
+    for c in seq_cases:
+        yield c
     # quick: all version cells with valid certificates + every certificate kind once per role
     for c in cases:
         tok = c.split(" ")
